@@ -768,6 +768,9 @@ def run(ctx, rep):
     rule_delta(ctx, rep)
     rule_null(ctx, rep)
     rule_measured(ctx, rep)
+    # the tokens are those of the text the document has now: of several whole-document events in one notification the last one counts
+    from rules.c11 import rule_last
+    rule_last(ctx, rep, rid="R-C15-last")
     # "of the current document text ... after arbitrary edit histories": tokens are computed from the project's current
     # sources, which are replaced wholesale on every change, and the adapter keeps no history of its own
     from rules.c11 import rule_cache, rule_stateless, rule_scheme
